@@ -13,3 +13,4 @@ import ServlinVerif.Props.C16
 import ServlinVerif.Props.C07
 import ServlinVerif.Props.C01
 import ServlinVerif.Props.C03
+import ServlinVerif.Props.C02
